@@ -45,7 +45,15 @@ def guard_drops(b, lock_bb):
             if src and src.get("l") in holders and "p" not in s["lhs"] and s["lhs"]["l"] not in holders:
                 holders.add(s["lhs"]["l"])
                 changed = True
-    return [i for i, blk in enumerate(b.blocks) if blk["term"]["k"] == "drop" and blk["term"]["place"].get("l") in holders and not blk.get("cleanup")]
+    out = [i for i, blk in enumerate(b.blocks) if blk["term"]["k"] == "drop" and blk["term"]["place"].get("l") in holders and not blk.get("cleanup")]
+    # an explicit `drop(guard)` releases the lock at that call
+    for i, blk in enumerate(b.blocks):
+        t = blk["term"]
+        if t["k"] == "call" and t["callee"].get("path") == "core::mem::drop" and t["argv"] and not blk.get("cleanup"):
+            pl = t["argv"][0].get("move")
+            if pl and "p" not in pl and pl["l"] in holders:
+                out.append(i)
+    return out
 
 
 def run(ck):
